@@ -59,11 +59,13 @@ func init() {
 		{Pattern: "xml.Lexer.*", Levels: "S"}, {Pattern: "xml.NewLexer", Levels: "S"},
 		{Pattern: "json.Parser.*", Levels: "S"}, {Pattern: "json.NewParser", Levels: "S"},
 		{Pattern: "js.Lexer.*", Levels: "S"}, {Pattern: "js.NewLexer", Levels: "S"},
+		{Pattern: "css.Parser.*", Levels: "S"}, {Pattern: "css.NewParser", Levels: "S"},
 	}
 	registerProp(&PropSpec{
 		ID: "C01", Title: "No input crashes, hangs or over-reads any lexer, parser or AST method",
 		Sel: lexers,
 		NotDecided: []string{
+			"linear progress of css.Parser.Next (monotone cursor, memory safety and state-stack typing are proved; the lexers' and the JSON parser's progress measures are proved)",
 			"nil-safety of the AST printing methods (JS/String/JSON) beyond the zero-annotation sweep",
 			"stack depth of tree-recursive printers (argued from the parser's nesting limits, not proved)",
 		},
@@ -148,6 +150,23 @@ func init() {
 		NotDecided: []string{"interleavings are not explored: the frame argument (no write ever reaches shared memory) replaces a thread model, which the technique does not have"},
 		Technique: "frame (modifies) obligations on every function: interprocedural provenance fix-point over go/ssa classifying every written location as argument-, receiver-, fresh- or package-level-rooted; the property holds iff no function outside initialisers writes package-level-rooted memory",
 		LevelText: "A frame obligation per function of the eight packages (write set contains no package-level-rooted memory), one obligation that no package-level variable is written outside initialisers, and one that the library starts no goroutines and uses no unsafe. Decided by an interprocedural provenance analysis (a sound over-approximation of the write set), not by exploring schedules.",
+	})
+	registerProp(&PropSpec{
+		ID: "C18", Title: "Walk visits every node of the tree once with balanced Enter/Exit",
+		Analyses: []string{"walk"},
+		NotDecided: []string{"that js.Parse only builds trees whose tagged unions (ClassElement) have exactly one alternative set: stated as the union directive in js/contracts_verif.go"},
+		Technique: "deductive verification of js.Walk against a type-derived child relation: per switch arm a set-algebra obligation over uninterpreted subtree sets ({n} ∪ visited == {n} ∪ children(T)) discharged by z3, plus order obligations on the Enter/defer-Exit prologue",
+		LevelText: "For every node type T of package js (every struct type implementing INode), children(T) is derived from go/types alone; the arm of Walk's type switch for *T must hand exactly those children to recursive Walk calls (obligation per arm discharged by the SMT solver: a missing or extra child yields a counter-model), every type with children must have an arm, the prologue must call Enter once before any child, defer Exit once on the returned visitor and skip the subtree on a nil visitor.",
+	})
+	registerProp(&PropSpec{
+		ID: "C08", Title: "CSS parser emits a well-nested, token-conserving grammar stream",
+		Sel: []Sel{{Pattern: "css.Parser.*", Levels: "SF"}, {Pattern: "css.NewParser", Levels: "S"}},
+		NotDecided: []string{
+			"Values() equals the source's component tokens with the stated whitespace rule for well-formed stylesheets (needs the CSS grammar as specification)",
+			"provenance of every Token.Data (input slice in source order, constant, lower-cased copy, concatenation)",
+			"nesting depth (level) never negative while no parse error was reported",
+		},
+		Technique: "deductive verification: typed state-stack invariant (bottom is a root state, others block states) with function-value identities, shared behavioural contract of the seven state functions applied at the dynamic dispatch in Next, push/pop postconditions per grammar unit, end-of-input report only with an empty block stack; VCs discharged by z3/cvc5",
 	})
 	registerProp(&PropSpec{
 		ID: "C10", Title: "JSON parser accepts every valid document and reproduces it",
